@@ -195,7 +195,15 @@ func (bg *BondgoCheck) Create_Bondmachine(rsize int, filter string) (*bondmachin
 	for _, _ = range creqs {
 		bmach.Add_shared_objects([]string{"channel:"})
 	}
-	for chanid, creq := range creqs {
+	// The channels are visited in id order: the order of the shared objects of a processor
+	// (its ch0, ch1, ...) must not depend on the map iteration
+	chanids := make([]int, 0, len(creqs))
+	for chanid := range creqs {
+		chanids = append(chanids, chanid)
+	}
+	sort.Ints(chanids)
+	for _, chanid := range chanids {
+		creq := creqs[chanid]
 		for _, proc_id := range creq.Connected {
 			endpoints := make([]string, 2)
 			endpoints[0] = strconv.Itoa(proc_id)
